@@ -113,7 +113,7 @@ func fsid(r *rand.Rand) string {
 
 type GraphOpts struct {
 	People      int
-	BaseYear    int  // birth years are drawn from [BaseYear, BaseYear+Span)
+	BaseYear    int // birth years are drawn from [BaseYear, BaseYear+Span)
 	Span        int
 	UIDProb     float64
 	DupUIDProb  float64 // probability that a person re-uses another person's UID
